@@ -575,6 +575,27 @@ def cmp_numeric_gate(ctx, kind, names, exps, gots, where):
         if a is not None and L.phase_equal(a, b, 2e-6):
             ctx.event("equal-under-gate-equality:" + kind)
             return []
+    else:
+        # some fields are symbolic (and compared equal above), the mismatch sits in numeric ones, e.g.
+        # PhasedXPowGate(phase_exponent=b, exponent=1.0) vs exponent=-1: the same matrix for every b, so Cirq's value
+        # equality identifies them and they share one constant.  Compared at two probe points of the symbols.
+        syms = sorted({x for v in list(exps) + list(gots) if isinstance(v, sympy.Basic) for x in v.free_symbols}, key=str)
+        same = True
+        for probe in (0.37, -1.21):
+            sub = {x: probe + 0.173 * i for i, x in enumerate(syms)}
+            try:
+                ev = [float(v.subs(sub)) if isinstance(v, sympy.Basic) else float(v) for v in exps]
+                gv = [float(v.subs(sub)) if isinstance(v, sympy.Basic) else float(v) for v in gots]
+            except (TypeError, ValueError):
+                same = False
+                break
+            a, b = _matrix_for(kind, ev), _matrix_for(kind, gv)
+            if a is None or not L.phase_equal(a, b, 2e-6):
+                same = False
+                break
+        if same and syms:
+            ctx.event("equal-under-gate-equality:" + kind)
+            return []
     return errs
 
 
